@@ -1,11 +1,16 @@
-(* Report functions that satisfy the contract [res_contract] of Model/History.v. *)
+(* Report functions that satisfy the contract [res_contract] of Model/History.v:
+   [canon_res] (reads entries without their junk ids) and [toy_res], the
+   compare-like report built on the AddRemove / KeyedTuple models of C20 with
+   keys compared as the rendered strings — the key-level algorithm of
+   ContentComparer.compare.  The second proof is a relational reading of
+   AddRemove: renaming keys in a way that preserves which keys are equal does
+   not change the labels or the order. *)
 From Coq Require Import NArith ZArith List Bool Arith Lia.
 From CL Require Import Base.Sx Base.Res Base.Str Model.AddRemove Model.History Model.HistoryWire
-                       Proofs.HistoryProofs.
+                       Proofs.AddRemoveProofs Proofs.HistoryProofs.
 Import ListNotations.
 Local Open Scope nat_scope.
 
-(* a report that reads the entries without their junk ids *)
 Lemma canon_res_contract : res_contract _ canon_res.
 Proof.
   intros v Ls Ls' H _ _. unfold canon_res.
@@ -13,4 +18,364 @@ Proof.
   clear IH. induction Hab as [|x y a b Hxy _ IH]; simpl; [reflexivity|]. f_equal; auto.
   destruct Hxy as (A & B & C). destruct x as [[k t] d], y as [[k' t'] d']. simpl in *.
   congruence.
+Qed.
+
+Lemma Forall2_impl : forall {A B} (P Q : A -> B -> Prop) l l',
+  (forall a b, P a b -> Q a b) -> Forall2 P l l' -> Forall2 Q l l'.
+Proof. induction 2; constructor; auto. Qed.
+
+Lemma Forall2_length : forall {A B} (P : A -> B -> Prop) l l',
+  Forall2 P l l' -> length l = length l'.
+Proof. induction 1; simpl; auto. Qed.
+
+Lemma NoDup_app_no_common : forall {A} (a b : list A) x,
+  NoDup (a ++ b) -> In x a -> In x b -> False.
+Proof.
+  induction a as [|y a IH]; simpl; intros b x H Ha Hb; [tauto|].
+  inversion H; subst. destruct Ha as [->|Ha].
+  - apply H2. apply in_or_app; auto.
+  - eapply IH; eauto.
+Qed.
+
+(* ---- AddRemove and KeyedTuple under a renaming of keys -------------------- *)
+Section Rel.
+Context {K K' : Type} (eqb : K -> K -> bool) (eqb' : K' -> K' -> bool) (Rk : K -> K' -> Prop).
+Hypothesis pat : forall a a' b b', Rk a a' -> Rk b b' -> eqb a b = eqb' a' b'.
+
+Definition RP (p : K * ord) (p' : K' * ord) : Prop := Rk (fst p) (fst p') /\ snd p = snd p'.
+Definition RA := Forall2 RP.
+
+Lemma mem_rel : forall k k' l l', Rk k k' -> Forall2 Rk l l' -> mem eqb k l = mem eqb' k' l'.
+Proof.
+  intros k k' l l' Hk H. induction H as [|x x' l l' Hx _ IH]; simpl; [reflexivity|].
+  rewrite (pat k k' x x' Hk Hx), IH. reflexivity.
+Qed.
+
+Lemma dget_rel : forall k k' m m', Rk k k' -> RA m m' -> dget eqb k m = dget eqb' k' m'.
+Proof.
+  intros k k' m m' Hk H. induction H as [|[x v] [x' v'] m m' [Hx Hv] _ IH]; simpl in *; [reflexivity|].
+  subst v'. rewrite (pat k k' x x' Hk Hx), IH. reflexivity.
+Qed.
+
+Lemma dset_rel : forall k k' v m m', Rk k k' -> RA m m' -> RA (dset eqb k v m) (dset eqb' k' v m').
+Proof.
+  intros k k' v m m' Hk H. induction H as [|[x w] [x' w'] m m' [Hx Hw] Hm IH]; simpl in *.
+  - constructor; [split; auto | constructor].
+  - subst w'. rewrite (pat k k' x x' Hk Hx). destruct (eqb' k' x').
+    + constructor; [split; auto | exact Hm].
+    + constructor; [split; auto | exact IH].
+Qed.
+
+Lemma build_left_rel : forall l l', Forall2 Rk l l' -> forall i m m', RA m m' ->
+  RA (build_left eqb i l m) (build_left eqb' i l' m').
+Proof.
+  induction 1 as [|x x' l l' Hx _ IH]; intros i m m' Hm; simpl; auto.
+  apply IH. apply dset_rel; auto.
+Qed.
+
+Lemma build_right_rel : forall r r', Forall2 Rk r r' -> forall i off m m', RA m m' ->
+  RA (build_right eqb i off r m) (build_right eqb' i off r' m').
+Proof.
+  induction 1 as [|x x' r r' Hx _ IH]; intros i off m m' Hm; simpl; auto.
+  rewrite <- (dget_rel x x' m m' Hx Hm). destruct (dget eqb x m) as [[li ?]|].
+  - apply IH; auto.
+  - apply IH. apply dset_rel; auto.
+Qed.
+
+Lemma insert_rel : forall x x' s s', RP x x' -> RA s s' -> RA (insert x s) (insert x' s').
+Proof.
+  intros x x' s s' Hx H. induction H as [|y y' s s' Hy Hs IH]; simpl.
+  - constructor; auto.
+  - destruct Hx as [Hx1 Hx2], Hy as [Hy1 Hy2]. rewrite <- Hx2, <- Hy2.
+    destruct (ord_ltb (snd y) (snd x)).
+    + constructor; [split; auto | exact IH].
+    + constructor; [split; auto|]. constructor; [split; auto | exact Hs].
+Qed.
+
+Lemma sort_rel : forall m m', RA m m' -> RA (sort m) (sort m').
+Proof.
+  induction 1 as [|x x' m m' Hx _ IH]; simpl; [constructor|]. apply insert_rel; auto.
+Qed.
+
+Lemma label_of_rel : forall k k' l l' r r', Rk k k' -> Forall2 Rk l l' -> Forall2 Rk r r' ->
+  label_of eqb l r k = label_of eqb' l' r' k'.
+Proof.
+  intros. unfold label_of. rewrite (mem_rel k k' l l'), (mem_rel k k' r r'); auto.
+Qed.
+
+Lemma addremove_rel : forall l l' r r', Forall2 Rk l l' -> Forall2 Rk r r' ->
+  Forall2 (fun p p' => fst p = fst p' /\ Rk (snd p) (snd p')) (addremove eqb l r) (addremove eqb' l' r').
+Proof.
+  intros l l' r r' Hl Hr. unfold addremove.
+  assert (H : RA (sort (order_map eqb l r)) (sort (order_map eqb' l' r'))).
+  { apply sort_rel. unfold order_map. apply build_right_rel; auto.
+    apply build_left_rel; auto. constructor. }
+  induction H as [|p p' m m' [Hp _] _ IH]; simpl; constructor; auto.
+  split; simpl; auto. apply label_of_rel; auto.
+Qed.
+
+Context {E E' : Type} (key : E -> K) (key' : E' -> K') (P : E -> E' -> Prop).
+Hypothesis P_key : forall e e', P e e' -> Rk (key e) (key' e').
+
+Lemma kt_index_rel : forall items items', Forall2 P items items' -> forall i k k', Rk k k' ->
+  kt_index_from eqb key i k items = kt_index_from eqb' key' i k' items'.
+Proof.
+  induction 1 as [|e e' items items' He _ IH]; intros i k k' Hk; simpl; [reflexivity|].
+  rewrite (IH (S i) k k' Hk). rewrite (pat k k' (key e) (key' e') Hk (P_key e e' He)). reflexivity.
+Qed.
+
+Lemma Forall2_nth_error : forall {A B} (Q : A -> B -> Prop) l l', Forall2 Q l l' ->
+  forall i, match nth_error l i, nth_error l' i with
+            | Some a, Some b => Q a b
+            | None, None => True
+            | _, _ => False
+            end.
+Proof.
+  induction 1 as [|a b l l' Hab _ IH]; intros [|i]; simpl; auto. apply IH.
+Qed.
+
+Lemma kt_getitem_rel : forall items items' k k', Forall2 P items items' -> Rk k k' ->
+  match kt_getitem eqb key k items, kt_getitem eqb' key' k' items' with
+  | Ok e, Ok e' => P e e'
+  | Raise t, Raise t' => t = t'
+  | _, _ => False
+  end.
+Proof.
+  intros items items' k k' H Hk. unfold kt_getitem, kt_index.
+  rewrite (kt_index_rel items items' H 0 k k' Hk).
+  destruct (kt_index_from eqb' key' 0 k' items') as [i|]; [|reflexivity].
+  pose proof (Forall2_nth_error P items items' H i) as Hn.
+  destruct (nth_error items i), (nth_error items' i); auto; contradiction.
+Qed.
+
+End Rel.
+
+(* ---- the compare-like report ------------------------------------------------- *)
+Lemma str_eqb_iff : forall a b, str_eqb a b = true <-> a = b.
+Proof. intros a b. split; [apply str_eqb_eq | intros ->; apply str_eqb_refl]. Qed.
+
+Definition kjunk (k : kent) : bool := is_junk_key (fst (fst k)).
+
+Lemma same_junk : forall a b, same_but_id a b -> kjunk a = kjunk b.
+Proof.
+  intros [[k t] d] [[k' t'] d'] (H & _ & _). unfold kjunk. simpl in *.
+  destruct k, k'; simpl in *; auto; discriminate.
+Qed.
+
+Lemma same_str_key : forall a b, same_but_id a b -> kjunk a = false -> kkey a = kkey b.
+Proof.
+  intros [[k t] d] [[k' t'] d'] (H & _ & _) J. unfold kjunk, kkey in *. simpl in *.
+  destruct k, k'; simpl in *; try discriminate. injection H as ->. reflexivity.
+Qed.
+
+Lemma same_kval : forall a b, same_but_id a b -> kval a = kval b.
+Proof.
+  intros [[k t] d] [[k' t'] d'] (_ & Ht & Hd). unfold kval. simpl in *. subst. reflexivity.
+Qed.
+
+Lemma in_junk_keys : forall X e, In e X -> kjunk e = true -> In (fst (fst e)) (junk_keys X).
+Proof.
+  intros X e Hin J. unfold junk_keys. apply filter_In. split; [|exact J].
+  apply in_map_iff. exists e. auto.
+Qed.
+
+Lemma in_str_keys : forall X e, In e X -> kjunk e = false -> In (kkey e) (str_keys X).
+Proof.
+  intros X e Hin J. unfold str_keys. apply in_flat_map. exists e. split; auto.
+  unfold kjunk, kkey in *. destruct (fst (fst e)); simpl in *; [auto | discriminate].
+Qed.
+
+(* corresponding entries of two lists that differ only in junk ids: a junk key
+   equal to another key of the list is that same entry *)
+Lemma pattern_junk : forall X X', Forall2 same_but_id X X' ->
+  NoDup (map render (junk_keys X)) ->
+  forall e1 e1' e2 e2', In (e1, e1') (combine X X') -> In (e2, e2') (combine X X') ->
+  kjunk e1 = true -> kjunk e2 = true -> kkey e1 = kkey e2 -> kkey e1' = kkey e2'.
+Proof.
+  induction 1 as [|x x' X X' Hx HX IH]; intros Hn e1 e1' e2 e2' H1 H2 J1 J2 E; simpl in *; [tauto|].
+  assert (Hn' : NoDup (map render (junk_keys X))).
+  { unfold junk_keys in *. simpl in Hn. destruct (is_junk_key (fst (fst x))); auto.
+    simpl in Hn. inversion Hn; auto. }
+  assert (Hhead : forall e e', In (e, e') (combine X X') -> kjunk e = true -> kjunk x = true ->
+                               kkey x <> kkey e).
+  { intros e e' Hin Je Jx Eq. unfold junk_keys in Hn. simpl in Hn.
+    unfold kjunk in Jx. rewrite Jx in Hn. simpl in Hn. inversion Hn; subst.
+    apply H3. unfold kkey in Eq. rewrite Eq. apply in_map.
+    apply (in_junk_keys X e); auto. eapply in_combine_l; eauto. }
+  destruct H1 as [H1|H1], H2 as [H2|H2].
+  - injection H1 as <- <-. injection H2 as <- <-. reflexivity.
+  - injection H1 as <- <-. exfalso. eapply Hhead; eauto.
+  - injection H2 as <- <-. exfalso. eapply Hhead; eauto.
+  - eapply IH; eauto.
+Qed.
+
+Lemma in_combine_same : forall X X', Forall2 same_but_id X X' ->
+  forall e e', In (e, e') (combine X X') -> same_but_id e e'.
+Proof.
+  induction 1 as [|x x' X X' Hx _ IH]; intros e e' Hin; simpl in *; [tauto|].
+  destruct Hin as [Hin|Hin]; [injection Hin as <- <-; auto | auto].
+Qed.
+
+Lemma Forall2_sym_same : forall X X', Forall2 same_but_id X X' -> Forall2 same_but_id X' X.
+Proof.
+  induction 1; constructor; auto. destruct H as (A & B & C). repeat split; auto.
+Qed.
+
+Lemma in_combine_swap : forall {A B} (l : list A) (l' : list B) a b,
+  In (a, b) (combine l l') -> In (b, a) (combine l' l).
+Proof.
+  induction l; destruct l'; simpl; intros; try tauto.
+  destruct H as [H|H]; [injection H as <- <-; auto | right; auto].
+Qed.
+
+(* which keys are equal is the same on both sides *)
+Lemma pattern : forall X X', Forall2 same_but_id X X' -> coll_free X -> coll_free X' ->
+  forall e1 e1' e2 e2', In (e1, e1') (combine X X') -> In (e2, e2') (combine X X') ->
+  str_eqb (kkey e1) (kkey e2) = str_eqb (kkey e1') (kkey e2').
+Proof.
+  intros X X' HX (N & D) (N' & D') e1 e1' e2 e2' H1 H2.
+  pose proof (in_combine_same X X' HX _ _ H1) as S1.
+  pose proof (in_combine_same X X' HX _ _ H2) as S2.
+  pose proof (in_combine_l _ _ _ _ H1) as I1. pose proof (in_combine_l _ _ _ _ H2) as I2.
+  pose proof (in_combine_r _ _ _ _ H1) as I1'. pose proof (in_combine_r _ _ _ _ H2) as I2'.
+  assert (Hiff : kkey e1 = kkey e2 <-> kkey e1' = kkey e2').
+  { destruct (kjunk e1) eqn:J1, (kjunk e2) eqn:J2.
+    - split; intros E.
+      + eapply (pattern_junk X X'); eauto.
+      + eapply (pattern_junk X' X); eauto using Forall2_sym_same, in_combine_swap;
+          rewrite <- ?(same_junk _ _ S1), <- ?(same_junk _ _ S2); auto.
+    - split; intros E; exfalso.
+      + eapply (D (fst (fst e1)) (kkey e2)); eauto using in_junk_keys, in_str_keys.
+      + eapply (D' (fst (fst e1')) (kkey e2')); eauto.
+        * apply in_junk_keys; auto. rewrite <- (same_junk _ _ S1); auto.
+        * apply in_str_keys; auto. rewrite <- (same_junk _ _ S2); auto.
+    - split; intros E; exfalso.
+      + eapply (D (fst (fst e2)) (kkey e1)); eauto using in_junk_keys, in_str_keys.
+      + eapply (D' (fst (fst e2')) (kkey e1')); eauto.
+        * apply in_junk_keys; auto. rewrite <- (same_junk _ _ S2); auto.
+        * apply in_str_keys; auto. rewrite <- (same_junk _ _ S1); auto.
+    - rewrite <- (same_str_key _ _ S1 J1), <- (same_str_key _ _ S2 J2). tauto. }
+  destruct (str_eqb (kkey e1) (kkey e2)) eqn:A, (str_eqb (kkey e1') (kkey e2')) eqn:B; auto.
+  - apply str_eqb_iff in A. apply Hiff in A. apply str_eqb_iff in A. congruence.
+  - apply str_eqb_iff in B. apply Hiff in B. apply str_eqb_iff in B. congruence.
+Qed.
+
+Lemma combine_app_same : forall {A B} (a : list A) (a' : list B) b b',
+  length a = length a' -> combine (a ++ b) (a' ++ b') = combine a a' ++ combine b b'.
+Proof.
+  induction a; destruct a'; simpl; intros; try discriminate; auto. f_equal. auto.
+Qed.
+
+Lemma Forall2_in_combine : forall {A B} (Q : A -> B -> Prop) l l',
+  Forall2 Q l l' -> Forall2 (fun a b => In (a, b) (combine l l')) l l'.
+Proof.
+  induction 1 as [|a b l l' _ _ IH]; simpl; constructor; auto.
+  eapply Forall2_impl; [|exact IH]. simpl. auto.
+Qed.
+
+Lemma Forall2_map2 : forall {A B C D} (f : A -> C) (g : B -> D) (Q : C -> D -> Prop) l l',
+  Forall2 (fun a b => Q (f a) (g b)) l l' -> Forall2 Q (map f l) (map g l').
+Proof. induction 1; simpl; constructor; auto. Qed.
+
+Theorem toy_res_contract : res_contract _ toy_res.
+Proof.
+  intros v Ls Ls' HL C C'.
+  destruct HL as [|R R' Ls Ls' HR HL]; [reflexivity|].
+  destruct HL as [|Lc Lc' Ls Ls' HLc HL]; [reflexivity|].
+  destruct HL as [|? ? ? ? _ _]; [|reflexivity].
+  simpl in C, C'. rewrite app_nil_r in C, C'. simpl.
+  set (X := R ++ Lc) in *. set (X' := R' ++ Lc') in *.
+  assert (HX : Forall2 same_but_id X X') by (apply Forall2_app; auto).
+  (* the renaming: corresponding entries *)
+  set (Rk := fun a a' : str => exists e e', In (e, e') (combine X X') /\ a = kkey e /\ a' = kkey e').
+  assert (pat : forall a a' b b', Rk a a' -> Rk b b' -> str_eqb a b = str_eqb a' b').
+  { intros a a' b b' (e1 & e1' & H1 & -> & ->) (e2 & e2' & H2 & -> & ->).
+    eapply pattern; eauto. }
+  assert (PR : forall e e', In (e, e') (combine R R') -> In (e, e') (combine X X')).
+  { intros e e' H. unfold X, X'. rewrite combine_app_same by (eapply Forall2_length; eauto).
+    apply in_or_app; auto. }
+  assert (PL : forall e e', In (e, e') (combine Lc Lc') -> In (e, e') (combine X X')).
+  { intros e e' H. unfold X, X'. rewrite combine_app_same by (eapply Forall2_length; eauto).
+    apply in_or_app; auto. }
+  set (PE := fun e e' : kent => In (e, e') (combine X X')).
+  assert (PkR : Forall2 PE R R').
+  { eapply Forall2_impl; [|apply (Forall2_in_combine _ _ _ HR)]. intros; apply PR; auto. }
+  assert (PkL : Forall2 PE Lc Lc').
+  { eapply Forall2_impl; [|apply (Forall2_in_combine _ _ _ HLc)]. intros; apply PL; auto. }
+  assert (PE_key : forall e e', PE e e' -> Rk (kkey e) (kkey e')).
+  { intros e e' H. exists e, e'. auto. }
+  assert (KR : Forall2 Rk (map kkey R) (map kkey R')).
+  { apply Forall2_map2. eapply Forall2_impl; [|exact PkR]. auto. }
+  assert (KL : Forall2 Rk (map kkey Lc) (map kkey Lc')).
+  { apply Forall2_map2. eapply Forall2_impl; [|exact PkL]. auto. }
+  pose proof (addremove_rel str_eqb str_eqb Rk pat _ _ _ _ KR KL) as HA.
+  (* membership facts for the items of each side *)
+  assert (Hlab : forall lab k, In (lab, k) (addremove str_eqb (map kkey R) (map kkey Lc)) ->
+                 lab = label_of str_eqb (map kkey R) (map kkey Lc) k)
+    by (intros; eapply addremove_labels; eauto).
+  remember (addremove str_eqb (map kkey R) (map kkey Lc)) as AR eqn:EAR.
+  remember (addremove str_eqb (map kkey R') (map kkey Lc')) as AR' eqn:EAR'.
+  assert (Hlab' : forall lab k, In (lab, k) AR -> lab = label_of str_eqb (map kkey R) (map kkey Lc) k)
+    by (subst AR; auto).
+  clear Hlab EAR EAR'.
+  induction HA as [|[lab k] [lab' k'] AR AR' [Hl Hk] _ IH]; simpl; [reflexivity|].
+  simpl in Hl, Hk. subst lab'. f_equal; [|apply IH; intros; apply Hlab'; simpl; auto].
+  pose proof (Hlab' lab k (or_introl eq_refl)) as Elab.
+  pose proof (label_of_spec str_eqb str_eqb_iff (map kkey R) (map kkey Lc) k) as Hspec.
+  rewrite <- Elab in Hspec.
+  pose proof (kt_getitem_rel str_eqb str_eqb Rk pat kkey kkey PE PE_key R R' k k' PkR Hk) as GR.
+  pose proof (kt_getitem_rel str_eqb str_eqb Rk pat kkey kkey PE PE_key Lc Lc' k k' PkL Hk) as GL.
+  (* a found entity (not junk) has the looked-up key on both sides *)
+  assert (found : forall (Y Y' : list kent) e e',
+             kt_getitem str_eqb kkey k Y = Ok e -> kt_getitem str_eqb kkey k' Y' = Ok e' ->
+             PE e e' -> kjunk e = false -> k = k').
+  { intros Y Y' e e' G G' Pe J.
+    apply (kt_getitem_spec str_eqb str_eqb_iff kkey) in G. destruct G as (_ & _ & _ & Ek & _).
+    apply (kt_getitem_spec str_eqb str_eqb_iff kkey) in G'. destruct G' as (_ & _ & _ & Ek' & _).
+    rewrite <- Ek, <- Ek'. apply same_str_key; auto. eapply in_combine_same; eauto. }
+  unfold toy_item. destruct lab.
+  - (* Equal: the key occurs on both sides; the reference entry cannot be junk *)
+    destruct (kt_getitem str_eqb kkey k R) as [a|] eqn:Ga,
+             (kt_getitem str_eqb kkey k' R') as [a'|] eqn:Ga'; try contradiction;
+    destruct (kt_getitem str_eqb kkey k Lc) as [b|] eqn:Gb,
+             (kt_getitem str_eqb kkey k' Lc') as [b'|] eqn:Gb'; try contradiction; auto.
+    assert (Sa : same_but_id a a') by (eapply in_combine_same; eauto).
+    assert (Sb : same_but_id b b') by (eapply in_combine_same; eauto).
+    rewrite <- (same_kval _ _ Sa), <- (same_kval _ _ Sb).
+    assert (Ja : kjunk a = false).
+    { destruct (kjunk a) eqn:J; auto. exfalso.
+      pose proof Ga as Ga2. pose proof Gb as Gb2.
+      apply (kt_getitem_spec str_eqb str_eqb_iff kkey) in Ga2.
+      destruct Ga2 as (p1 & p2 & ER & Eka & _).
+      apply (kt_getitem_spec str_eqb str_eqb_iff kkey) in Gb2.
+      destruct Gb2 as (q1 & q2 & EL & Ekb & _).
+      assert (InA : In a R) by (rewrite ER; apply in_or_app; right; left; reflexivity).
+      assert (InB : In b Lc) by (rewrite EL; apply in_or_app; right; left; reflexivity).
+      destruct C as (N & Dj).
+      destruct (kjunk b) eqn:Jb.
+      - (* two junk entries with the same rendered key, one in each file *)
+        unfold X in N. rewrite junk_keys_app, map_app in N.
+        apply (NoDup_app_no_common _ _ (kkey a) N).
+        + unfold kkey. apply in_map. apply in_junk_keys; auto.
+        + rewrite Eka, <- Ekb. unfold kkey. apply in_map. apply in_junk_keys; auto.
+      - apply (Dj (fst (fst a)) (kkey b)).
+        + apply in_junk_keys; auto. unfold X. apply in_or_app; auto.
+        + apply in_str_keys; auto. unfold X. apply in_or_app; auto.
+        + change (kkey a = kkey b). congruence. }
+    rewrite (found R R' a a' Ga Ga' GR Ja). reflexivity.
+  - (* Delete *)
+    destruct (kt_getitem str_eqb kkey k R) as [a|] eqn:Ga,
+             (kt_getitem str_eqb kkey k' R') as [a'|] eqn:Ga'; try contradiction; auto.
+    assert (Sa : same_but_id a a') by (eapply in_combine_same; eauto).
+    change (is_junk_key (fst (fst a'))) with (kjunk a').
+    change (is_junk_key (fst (fst a))) with (kjunk a). rewrite <- (same_junk _ _ Sa).
+    destruct (kjunk a) eqn:J; auto. rewrite (found R R' a a' Ga Ga' GR J). reflexivity.
+  - (* Add *)
+    destruct (kt_getitem str_eqb kkey k Lc) as [b|] eqn:Gb,
+             (kt_getitem str_eqb kkey k' Lc') as [b'|] eqn:Gb'; try contradiction; auto.
+    assert (Sb : same_but_id b b') by (eapply in_combine_same; eauto).
+    change (is_junk_key (fst (fst b'))) with (kjunk b').
+    change (is_junk_key (fst (fst b))) with (kjunk b). rewrite <- (same_junk _ _ Sb).
+    destruct (kjunk b) eqn:J; [rewrite (same_kval _ _ Sb); reflexivity|].
+    rewrite (found Lc Lc' b b' Gb Gb' GL J). reflexivity.
 Qed.
